@@ -453,14 +453,23 @@ fn c12_tail<Q: QT>(q: Q, m: &M, args: &[u64], l: &mut Local) -> Result<(), Viol>
 /// drawn sign (the sticky bit that must decide the rounding lives in a distant limb), then a short
 /// random tail.
 pub fn tie_history<P: PT>() -> BoxedStrategy<(Vec<Step>, u64)> {
+    tie_history_w::<P>(P::N)
+}
+
+/// the same with the rounding threshold taken from the `w`-bit format of the same exponent size
+/// (w <= P::N): posits of one exponent size nest, so a w-bit pattern shifted left is a P pattern of
+/// the same value.  Used where the accumulator is rounded to a narrower posit (Q32E2 -> PxE2<w>).
+pub fn tie_history_w<P: PT>(w: u32) -> BoxedStrategy<(Vec<Step>, u64)> {
     let (n, es) = (P::N, P::ES);
     let ms = gen::max_scale(n, es);
-    (gen::tie_pair_ops(n, es, 0, 1), any::<u64>(), history::<P>(false, 2)).prop_map(move |((_, a, b), raw, (tail, perm))| {
+    let w = w.clamp(2, n);
+    (gen::tie_pair_ops(w, es, 0, 1), any::<u64>(), history::<P>(false, 2)).prop_map(move |((_, a, b), raw, (tail, perm))| {
+        let (a, b) = (a << (n - w), b << (n - w));
         let mut steps = vec![Step { code: 2, p: [a, 0, 0, 0] }, Step { code: 2, p: [b, 0, 0, 0] }];
         // tiny product at a drawn depth below the sum (uniform over the whole reach of the quire), half of
         // the time a pure power of two: then the only sticky information is ONE bit at that depth
         let sv = gen::scale_of(n, es, a).unwrap_or(0).max(gen::scale_of(n, es, b).unwrap_or(0));
-        let depth = n as i32 / 2 + (raw % (2 * ms as u64 + 8)) as i32;
+        let depth = w as i32 / 2 + (raw % (2 * ms as u64 + 8)) as i32;
         let target = (sv - depth).max(-2 * ms);
         let s1 = (target / 2 + ((raw >> 16) % 9) as i32 - 4).clamp(-ms, ms);
         let s2 = (target - s1).clamp(-ms, ms);
